@@ -190,6 +190,20 @@ CLAIMED = {
         technique="Lean 4 proof (round trip by induction, exhaustive kernel evaluation of the sign lemma to 5 orbitals, eigenvector algebra) + exact correspondence + Fock-space spec",
         note=TB + " The all-size sign lemma and the link sorting-sign -> determinant (det_permute) are not formalised; the multislater energy is a finite difference (tolerance 2e-5); pyscf FCI is an external oracle.",
     ),
+    "C10": dict(
+        category="proof",
+        text=("Lean theorems for every dimension: det(C^T (1+D) W) = det(C^T W) det(1 + D P) for any diagonal row scaling (Weinstein-Aronszajn), "
+              "hence the rank-one ratio 1 + c P_ii and the rank-two ratio (1+c_i P_ii)(1+c_j P_jj) - c_i c_j P_ij P_ji of calc_overlap_ratio; the "
+              "Hubbard-Stratonovich identity (c+ + c- = 2, c+ c- = kappa => the field average multiplies an occupation state by kappa^{n_up n_dn}); "
+              "row scaling multiplies a minor by the constants of the rows its string contains; site-wise probability x weight / new overlap = 1/(2 old "
+              "overlap). Tied to the code by ratio and Green's-function updates vs from-scratch values for every ordered pair of spin-orbitals (uhf and "
+              "ghf trials), an HS-constant monitor, fast vs slow propagators (on-site and nearest-neighbour), and the exhaustive sum over all 2^n field "
+              "configurations of a real propagate step (branch probabilities measured by bisection) vs exp(-dt K/2) prod exp(-dt U n n) exp(-dt K/2) on "
+              "the Fock space. One recorded finding: with Cholesky vectors in ham_data the one-body factor is not exp(-dt K/2)."),
+        design_ref="DESIGN.md §5/C10",
+        technique="Lean 4 proof (det(1+UV)=det(1+VU) reductions, scalar HS identity) + exhaustive 2^n enumeration on the implementation",
+        note=TB + " The Sherman-Morrison / rank-two Green's-function update is validated against from-scratch values, not proved; expm/erf/arccosh are library calls (HS constants monitored).",
+    ),
 }
 
 NOT_YET = {}
